@@ -3,7 +3,7 @@ import sys, time, json, itertools
 import vlib, zoo
 
 PID = 'C09'
-KINDS = ['A', 'B', 'C', 'D', 'Z', 'G', 'X']
+KINDS = ['A', 'B', 'C', 'D', 'Z', 'G', 'X', 'S']
 LAYOUTS = ['natural', 'flush', '4']
 
 
@@ -12,6 +12,9 @@ def mklink(kind, pos, layout, hiserial=False):
     if hiserial:
         # serial numbers with the top bit set (stored sign-extended by the library): 0x80000000.., 0xfffffff0..
         serial = -(1 << 31) + pos * 37 + KINDS.index(kind) if pos % 2 == 0 else -16 + pos
+    if kind == 'S':
+        # synthesised 3-channel 64/128 link with floor 0 whose padded packets straddle pages (some pages carry no granule position)
+        return zoo.synth_link('c09_S_%d' % serial, serial, 64, 128, 14, ch=3, rate=16000, pad=500, span=3, floortype=0)
     if kind == 'X':
         return zoo.multiplexed('A', serial, layout if layout != 'natural' else '3', fserial=9000 + pos)
     if kind == 'G' and layout == 'natural':
@@ -81,7 +84,7 @@ def run(tier):
                 pass
     chk.cov['samples'] = [{'kinds': ''.join(m[0]), 'layouts': m[1]} for m in meta[::max(1, len(meta) // 8)]][:10]
     chk.cov.update({'distinct_nontrivial': len([s for s in sigs if len(s[0]) > 1]), 'exhaustive': True, 'max_backward_hop_bytes': maxhop,
-                    'rule': f'all sequences of length 1..{maxlen} over link kinds {KINDS} (A 8k mono, B 11k stereo, C 44.1k 256/2048, D audio in a single page, Z zero samples, G non-zero start granule, X multiplexed foreign stream) '
+                    'rule': f'all sequences of length 1..{maxlen} over link kinds {KINDS} (A 8k mono, B 11k stereo, C 44.1k 256/2048, D audio in a single page, Z zero samples, G non-zero start granule, X multiplexed foreign stream, S synthesised 3-channel floor-0 64/128 link with page-spanning packets) '
                             'x page layouts, mixed layouts on ADC^3, 27 large chains over {small,>64KiB,>128KiB}^3, long alternating chains; oracle: link table vs construction, read-through == concatenation of packet-API solo decodes; '
                             'distinct_nontrivial = distinct multi-link (kinds, layouts) cases that passed'})
     chk.assumptions += ['solo decode uses the packet-level API of the same library (C01/C04 cover it)', 'ov_raw_total per link only required to be positive and not larger than the link']
